@@ -85,8 +85,17 @@ def check_cfg(job):
     # coherent data near the top of the floating-point range: the unitary transform stays finite (sqrt(N) * max), any detour
     # through an unnormalised intermediate does not; and tiny data near the bottom
     if norm == "ortho":
-        inputs.append(("huge128", np.full(shape, (1 + 1j) * 1e305, dtype=np.complex128), 1e-10))
-        inputs.append(("huge64", np.full(shape, (1 + 1j) * 1e36, dtype=np.complex64), 2e-5))
+        lens = [ax_["m"] for ax_ in plan["axes"] if ax_["t"] and ax_["m"] > 1]
+        if len(lens) >= 2:
+            # numpy normalises after each axis, so the largest intermediate of the documented computation is
+            # m_orig = n_max * sqrt(N / n_max) times the data (largest axis last, the worst order); an implementation that
+            # normalises once at the end needs N times the data.  Amplitude in between: finite for the former, overflow for the latter.
+            ntr = int(np.prod(lens))
+            m_orig = max(lens) * (ntr / max(lens)) ** 0.5
+            a128 = np.finfo(np.float64).max / (1.4143 * (m_orig * ntr) ** 0.5)
+            a64 = float(np.finfo(np.float32).max) / (1.4143 * (m_orig * ntr) ** 0.5)
+            inputs.append(("huge128", np.full(shape, (1 + 1j) * a128, dtype=np.complex128), 1e-10))
+            inputs.append(("huge64", np.full(shape, (1 + 1j) * a64, dtype=np.complex64), 2e-5))
         inputs.append(("tiny128", x128 * 1e-300, 1e-10))
     for name, x, tol in inputs:
         x0 = x.copy()
